@@ -117,6 +117,10 @@ def dynamic_call(I, fv, args, kwargs, node, awaited):
     model_dump -> a dict or an exception"""
     m = I.ghost.get("current")
     I.assume(z3.Or(V.is_fn(fv), V.is_obj(fv)))
+    # "absent optional members omitted" and nothing else: the typed message is dumped with exclude_none=True only
+    # (C02 / C15: the same options at every carrier; exclude_unset/exclude_defaults would drop "jsonrpc")
+    only_exclude_none = set(kwargs) == {"exclude_none"} and V.concrete_bool(V.truthy(kwargs["exclude_none"])) is True
+    I.oblige("C06._stdin_writer.typed_message_serialised_with_exclude_none_only", z3.BoolVal(bool(only_exclude_none)))
     if I.choose_n(2, "serialiser_outcome") == 1:
         raise PyRaise(I.make_exc("AnyException", V.VStr("cannot serialise")), "AnyException")
     if "model_dump_json" in str(fv):
